@@ -7,7 +7,7 @@ PID = "C04"
 LEVEL = "exploration"
 RULE = ("for every game x every weak order of the listed spaces: all n! team permutations (T3, T4|V4; thorough: T4, T5|V2), all "
         "adjacent transpositions (T4; thorough: T5|V3, T6|V2, D7, D8 - they generate the symmetric group and the spaces are "
-        "closed under permutation), every permutation of the players of each team (P2, P3); ranks/scores permuted alongside; "
+        "closed under permutation), every permutation of the players of each team (P2, P3; teams of 5-8 players in PK: a generating set); ranks/scores permuted alongside; "
         "under the two partial-pairing classes only permutations that keep mutually tied teams in their relative order (every "
         "admissible one is still enumerated); posterior of every player must agree within 1e-9 of scale (Thurstone-Mosteller: "
         "plus the width of that player's reference interval); non-trivial = permuted presentation differs from the original "
@@ -99,7 +99,9 @@ def eval_case(kind, cfg, game, ranks, perms, player_perms=False, enc="ranks"):
                 for ti, T in enumerate(game):
                     if len(T) < 2:
                         continue
-                    for q in itertools.permutations(range(len(T))):
+                    # every permutation of the players for teams of <= 4, a generating set (adjacent swaps, reversal, rotation) above
+                    qs = itertools.permutations(range(len(T))) if len(T) <= 4 else spaces.generator_perms(len(T))
+                    for q in qs:
                         if q == tuple(range(len(T))):
                             continue
                         g2 = [list(t) for t in game]
@@ -132,14 +134,14 @@ def plan(ctx):
     """(space, cfg, which perms, player perms)"""
     out = [("T3", "K0", "all", False), ("T4|V4", "K0", "all", False), ("T4", "K0", "adjacent", False),
            ("P2", "K0", "none", True), ("P3", "K0", "adjacent", True), ("T3|V6", "K5", "all", False), ("T3|V6", "K8", "all", False),
-           ("T5|V2", "K0", "adjacent", False), ("D7b1", "K0", "adjacent", False)]
+           ("T5|V2", "K0", "adjacent", False), ("D7b1", "K0", "adjacent", False), ("PK", "K0", "adjacent", True)]
     if ctx.thorough:
         out += [("T4", "K0", "all", False), ("T5|V2", "K0", "all", False), ("T5|V3", "K0", "adjacent", False), ("T6|V2", "K0", "adjacent", False),
                 ("D7", "K0", "adjacent", False), ("D8", "K0", "adjacent", False), ("T3", "K2", "all", False), ("T3", "K4", "all", False), ("T3", "K7", "all", False)]
     return out
 
 
-PARTS = {"D7b1": 8, "T3": 8, "T4|V4": 16, "T4": 32, "P2": 12, "P3": 8, "T3|V6": 2, "T5|V2": 8, "T5|V3": 24, "T6|V2": 48, "D7": 32, "D8": 96}
+PARTS = {"PK": 6, "D7b1": 8, "T3": 8, "T4|V4": 16, "T4": 32, "P2": 12, "P3": 8, "T3|V6": 2, "T5|V2": 8, "T5|V3": 24, "T6|V2": 48, "D7": 32, "D8": 96}
 
 
 def units(ctx):
